@@ -10,7 +10,7 @@
 From Coq Require Import List NArith Arith Bool Lia.
 From ApiFu Require Import Base.Sexp Vld.Ast Vld.AstInd Vld.Inspect Vld.InspectProofs Vld.TypeInfoModel Vld.TypeInfoPure
      Vld.Enumerate Vld.SpecEnum Vld.ValidatorModel Vld.ValidSpec Vld.Hyps Vld.ProofsCommon Vld.ProofsDirectives Vld.ProofsArguments
-     Vld.ProofsFragDecl Vld.ProofsOrder Vld.ProofsTotal Vld.ProofsFields Vld.ProofsSpreads Vld.ProofsMemo Vld.ValidatorProofs.
+     Vld.ProofsFragDecl Vld.ProofsOperations Vld.ProofsOrder Vld.ProofsTotal Vld.ProofsFields Vld.ProofsSpreads Vld.ProofsMemo Vld.ValidatorProofs.
 Import ListNotations.
 
 Definition all_primary (l : list verror) : Prop := forall e, In e l -> e_sec e = false.
@@ -199,21 +199,89 @@ Qed.
 Lemma finish_done_inv st e : finish st = Done e -> r_errs st = e.
 Proof. unfold finish. destruct (r_abort st) as [[s|]|]; try discriminate. intros H. inversion H. reflexivity. Qed.
 
+(** ** validateOperations: an operation whose root type the schema lacks is a primary error *)
+Section OpsPrimary.
+  Variable q : quirks.
+  Variable A : document.
+  Notation step := (ops_step q A).
+
+  Lemma ops_step_mono acc d e : In e (r_errs (snd acc)) -> In e (r_errs (snd (step acc d))).
+  Proof.
+    destruct acc as [[anon seen] st]. destruct d as [ot n vars dirs sub | kw n np cond dirs sub]; [| exact (fun H => H)].
+    intros H. cbn [ops_step snd] in *.
+    destruct (match n with None => (Datatypes.S anon, seen, st) | Some (nm, p) => if mem nm seen then (anon, seen, add_errs st [err EOpDupName p]) else (anon, nm :: seen, st) end)
+      as [[anon1 seen1] st1] eqn:E1.
+    assert (In e (r_errs st1)) as H1.
+    { destruct n as [[nm p]|]; [destruct (mem nm seen) |]; inversion E1; subst; [simpl; apply in_or_app; left; exact H | exact H | exact H]. }
+    cbn [snd].
+    assert (In e (r_errs (match ss_ann sub with None => add_errs st1 [err EOpUnsupported (def_pos (DOp ot n vars dirs sub))] | Some _ => st1 end))) as H2.
+    { destruct (ss_ann sub); [exact H1 | simpl; apply in_or_app; left; exact H1]. }
+    destruct (is_subscription ot); [| exact H2].
+    destruct (add_selections q A [] (Some sub)) as [m v | e0 |]; [destruct (Nat.eqb (length m) 1); [exact H2 |] | | exact H2];
+      simpl; apply in_or_app; left; exact H2.
+  Qed.
+
+  Lemma ops_step_root acc d : root_ok d = false -> In (err EOpUnsupported (def_pos d)) (r_errs (snd (step acc d))).
+  Proof.
+    destruct acc as [[anon seen] st]. destruct d as [ot n vars dirs sub | kw n np cond dirs sub]; [| discriminate].
+    unfold root_ok. intros H. cbn [ops_step].
+    destruct (match n with None => (Datatypes.S anon, seen, st) | Some (nm, p) => if mem nm seen then (anon, seen, add_errs st [err EOpDupName p]) else (anon, nm :: seen, st) end)
+      as [[anon1 seen1] st1].
+    cbn [snd]. destruct (ss_ann sub); [discriminate |].
+    assert (In (err EOpUnsupported (def_pos (DOp ot n vars dirs sub))) (r_errs (add_errs st1 [err EOpUnsupported (def_pos (DOp ot n vars dirs sub))]))) as H2
+        by (simpl; apply in_or_app; right; left; reflexivity).
+    destruct (is_subscription ot); [| exact H2].
+    destruct (add_selections q A [] (Some sub)) as [m v | e0 |]; [destruct (Nat.eqb (length m) 1); [exact H2 |] | | exact H2];
+      simpl; apply in_or_app; left; exact H2.
+  Qed.
+
+  Lemma ops_fold_mono l : forall acc e, In e (r_errs (snd acc)) -> In e (r_errs (snd (fold_left step l acc))).
+  Proof. induction l as [|d l IH]; intros acc e H; [exact H |]. cbn [fold_left]. apply IH, ops_step_mono, H. Qed.
+
+  Lemma ops_fold_root l : forall acc d, In d l -> root_ok d = false ->
+    In (err EOpUnsupported (def_pos d)) (r_errs (snd (fold_left step l acc))).
+  Proof.
+    induction l as [|d0 l IH]; intros acc d Hin Hr; [destruct Hin |]. destruct Hin as [<- | Hd]; cbn [fold_left].
+    - apply ops_fold_mono, ops_step_root, Hr.
+    - apply IH; assumption.
+  Qed.
+
+  Theorem operations_primary_root errs :
+    rule_operations q A = Done errs -> primary errs = [] -> forall d, In d A -> root_ok d = true.
+  Proof.
+    unfold rule_operations. intros H P d Hd. destruct (root_ok d) eqn:Hr; [reflexivity | exfalso].
+    pose proof (ops_fold_root A (O, [], rst0) d Hd Hr) as Hin.
+    destruct (fold_left step A (O, [], rst0)) as [[anon seen] st]. cbn [snd] in Hin.
+    apply finish_done_inv in H.
+    assert (In (err EOpUnsupported (def_pos d)) errs) as He.
+    { rewrite <- H. destruct (Nat.ltb 0 anon); [| exact Hin].
+      destruct (filter is_op A) as [|d1 [|d2 r]]; [exact Hin | exact Hin | simpl; apply in_or_app; left; exact Hin]. }
+    assert (In (err EOpUnsupported (def_pos d)) (primary errs)) as Hp by (apply filter_In; split; [exact He | reflexivity]).
+    rewrite P in Hp. destruct Hp.
+  Qed.
+End OpsPrimary.
+
 (** ** no primary error: which rule groups are then silent *)
 Local Notation QO := (q_unwrap_obj repaired).
 Local Notation AD S F D := (pti_doc QO S F D).
 Theorem no_primary_then_silent pi S F D errs :
-  order_ok pi -> schema_ok S = true -> valid_root S D = true ->
+  order_ok pi -> schema_ok S = true ->
   all_rules repaired pi S F (pti_doc (q_unwrap_obj repaired) S F D) = Done errs -> primary errs = [] ->
+  valid_root S D = true /\
   (forall d o, In d D -> In o (ssels_ss S F (model_def_scope S F d) (def_sub d)) -> good S (fst o)) /\
   r_errs (inspect (fields_enter S F) pop (tree_doc (pti_doc (q_unwrap_obj repaired) S F D)) rst0) = [] /\
   rule_fragment_declarations pi S F (pti_doc (q_unwrap_obj repaired) S F D) = [] /\
   rule_directives repaired S (pti_doc (q_unwrap_obj repaired) S F D) = Done [] /\
   rule_fragment_spreads repaired pi S F (pti_doc (q_unwrap_obj repaired) S F D) = Done [].
 Proof.
-  intros Hpi Hs Hroot Hall Hprim.
+  intros Hpi Hs Hall Hprim.
   destruct (all_rules_split _ _ _ _ _ _ Hall) as [e1 [e2 [e3 [e5 [e6 [e7 [e8 [R1 [R2 [R3 [R5 [R6 [R7 [R8 ->]]]]]]]]]]]]]].
   rewrite !primary_app_nil in Hprim. destruct Hprim as [P1 [P2 [P3 [[P4 P5] [P6 [P7 P8]]]]]].
+  assert (valid_root S D = true) as Hroot.
+  { unfold valid_root. apply forallb_forall. intros d Hd.
+    pose proof (operations_primary_root repaired (AD S F D) e1 R1 P1 (pti_def QO S F d) (in_map _ _ _ Hd)) as Hr.
+    rewrite root_ok_pti in Hr. destruct d; [exact Hr | reflexivity]. }
+  split; [exact Hroot |].
   unfold schema_ok in Hs. apply andb_true_iff in Hs as [Hs Hs3]. apply andb_true_iff in Hs as [Hs1 Hs2].
   pose proof (schema_no_typename_spec S F Hs1) as Hnt.
   (* declarations and directives: all their errors are primary *)
